@@ -288,6 +288,27 @@ Lemma L_tuple' c s s' i m' q' v' :
   InvMon c s'.
 Proof. apply L_tuple. Qed.
 
+(* one monitor leaves on ctx.Done *)
+Lemma L_mon_exit c s i :
+  InvMon c s -> mon_at s i <> MoAbsent -> ctx_done s = true ->
+  InvMon c (set_mon s (upd (mon s) i MoDone) (upd (mq s) i [])).
+Proof.
+  intros I Hm Hc. pose proof (im_len _ _ I) as (L1 & L2 & L3 & L4).
+  assert (Li : i < length (mon s)).
+  { unfold mon_at, get in Hm. destruct (Nat.lt_ge_cases i (length (mon s))) as [L|L]; [exact L|].
+    rewrite nth_overflow in Hm by exact L. congruence. }
+  eapply (InvMon_point c s _ i I); simp_st; rewrite ?upd_length; try reflexivity.
+  - intros j N. unfold mon_at, pend, smap_at, cur_at. simp_st.
+    rewrite !get_upd_other by congruence. auto.
+  - unfold mon_at, pend. simp_st. rewrite get_upd_same by exact Li.
+    constructor; cbn; intros; try discriminate; try contradiction.
+  - unfold ctx_done. simp_st. auto.
+  - intros _. unfold ctx_done in *. simp_st. exact Hc.
+  - unfold mon_at. simp_st. rewrite get_upd_same by exact Li. discriminate.
+  - intros k _ _ H. left. exact H.
+  - unfold smap_at. simp_st. auto.
+Qed.
+
 Lemma P_bcast l q v cu : P (MoBcast l) q v cu -> P (MoLoop l) q v cu.
 Proof. intros [A B C D E]. constructor; auto. discriminate. Qed.
 
@@ -424,6 +445,8 @@ Proof.
   destruct l; cbn [step0] in H; unfold start_shutdown, store_state in H;
     step_cases H; inversion H; subst; clear H.
   all: try (frame_tac I; fail).
+  (* a monitor leaves on ctx.Done *)
+  all: try (apply L_mon_exit; [exact I|match goal with E : mon_at _ _ = _ |- _ => rewrite E; discriminate end|assumption]; fail).
   (* Run() creates the monitors: none has subscribed *)
   all: try (match goal with |- InvMon _ (set_main (start_managers _ _) (MLaunch 0)) => idtac end;
             constructor; simp_st;
